@@ -165,6 +165,74 @@ CLAIMED["C10"] = {
     "design_ref": "5 (C10)",
 }
 
+CLAIMED["C03"] = {
+    "text": "Lean theorem strokes_in_every_neighbourhood over the REGENERATED table: for every 8-neighbourhood whose cells "
+            "come from the alphabet {space, -, |, +, label}, the fragments '-', '|' and '+' emit are exactly the per-character "
+            "strokes of the specification, solid lines only (sound reduction: rows are local in the neighbours they mention "
+            "— proved — so diagonals cannot matter — decided — and the 4^4 axis neighbourhoods are decided by kernel "
+            "evaluation); label characters have no property; a lone '+' is text; a rectangle replaces exactly four lines that "
+            "are its sides (after the is_rect fix). Line merging preserving strokes is C09. End-to-end: byte correspondence on "
+            "the same grids, and the stroke oracle (independent reference renderer, quarter-unit edge sets) exhaustively on "
+            "all grids up to 2x3/3x2/1x6 (quick) or 3x3, 2x4, 4x2, 1x8, 8x1 (thorough) plus random grids up to 14x8.",
+    "note": "Trusted: Lean kernel; table translator (validated against the real closures); correspondence; the composition "
+            "'per-cell strokes -> merged lines -> rect' into one end-to-end theorem is not yet proved (oracle covers it).",
+    "technique": "Lean 4 proof (decide +kernel over regenerated table with proved locality reduction; rect soundness) + byte-level correspondence + exhaustive small-grid stroke oracle",
+    "design_ref": "5 (C03)",
+}
+CLAIMED["C05"] = {
+    "text": "Lean theorem rect_only_from_its_four_sides: a contact group is endorsed as a sharp rectangle only if it has exactly "
+            "four fragments and each side of the emitted rectangle (= the group's bounding box) is one of the group's lines — "
+            "ladders, an H with two bars and overhanging sides are never endorsed (true since the is_rect fix). Completeness "
+            "(every box of the family -> exactly one rect with position, size, radius, dashed class) is checked on the "
+            "implementation by the bounded sweep (widths 0..20 x heights 0..10 quick, 0..60 x 0..30 thorough, x offsets x "
+            "corner styles x edge styles x interior text) and soundness of every emitted rect on random grids; byte-level "
+            "correspondence ties the model. Known finding: rounded boxes with zero interior width/height.",
+    "note": "Trusted: Lean kernel; correspondence; rounded-rect soundness and completeness for all sizes are oracle-level, "
+            "not theorems.",
+    "technique": "Lean 4 proof (soundness of the rectangle endorsement predicate) + byte-level correspondence + completeness sweep and soundness oracle with known-finding classifier",
+    "design_ref": "5 (C05)",
+}
+CLAIMED["C13"] = {
+    "text": "By kernel evaluation over the REGENERATED catalogue through the model's own front end and span merge: each of the 22 "
+            "drawings forms exactly one span, is endorsed as exactly its own circle with no cell left over, the horizontal "
+            "extent equals the drawing's, the radius follows the documented rule, every character lies within one cell "
+            "diagonal of the circle, sizes are pairwise distinct. By proof: the catalogue endorsement (localise, match, place) "
+            "and the span grouping are translation equivariant for every offset, so a drawing that matches at the origin "
+            "matches the moved circle anywhere. 'Unrelated content elsewhere' is C10. Oracle on the implementation: 22 "
+            "drawings x offsets up to (60,40) x optional far content; byte-level correspondence.",
+    "note": "Trusted: Lean kernel; translator for circle_map.rs art rows; correspondence; the kernel evaluation takes ~12 min "
+            "when circle_map.rs or the model changes (cached otherwise).",
+    "technique": "Lean 4 proof (decide +kernel over regenerated catalogue + translation equivariance of the catalogue match) + byte-level correspondence + placement oracle",
+    "design_ref": "5 (C13)",
+}
+CLAIMED["C14"] = {
+    "text": "Decided over the REGENERATED tables: every arrowhead polygon of the ASCII table (outside the shallow '.'/\' connector "
+            "rows) and every triangle glyph is a filled triangle whose tip lies on the cell axis of its direction and whose "
+            "base straddles it; all arrow characters have heads; table arcs have a centre. Proved for all inputs: Fragment::merge "
+            "never alters or produces polygons or arcs; merging a line with a bullet yields a marker line ending at the bullet "
+            "centre, keeping the farther line end, with the marker kind of the bullet (true since the merge_circle fix). Oracle "
+            "on the implementation: lines 1..40 x 8 directions x arrow characters/glyphs x bullets * o O x offsets (tip on "
+            "axis beyond the line end, base straddles, marked end = cell centre, no gap), rounded outlines with a stub (arc "
+            "endpoints meet line ends, centre inside); byte-level correspondence.",
+    "note": "Trusted: Lean kernel; table translator; correspondence; the geometry of corner arcs is oracle-level.",
+    "technique": "Lean 4 proof (decide +kernel over regenerated tables; merge_circle geometry) + byte-level correspondence + geometric oracle",
+    "design_ref": "5 (C14)",
+}
+CLAIMED["C16"] = {
+    "text": "Lean theorems about the pom grammar model: an entry 'name = {decl}' with identifier name and brace-free "
+            "declaration parses to (name, decl) whatever follows; legend CSS is '.svgbob .name{ decl }' joined by newlines in "
+            "order; with an accepted legend only the text before the header is drawn, a rejected legend is drawn entirely. "
+            "About the containment forest: a tag that fits a shape and none of its children becomes that shape's classes and "
+            "is not kept; a child that encloses it wins (innermost); other text is kept; a tag fitting nothing is not consumed. "
+            "Correspondence: both grammars function-by-function through hooks (valid + malformed streams) and end to end; "
+            "oracle on the implementation: legends with 0..6 entries over a hostile declaration alphabet, tags in boxes, "
+            "rounded boxes, circles, nested boxes, beside text, outside shapes.",
+    "note": "Trusted: Lean kernel; hand transcription of pom combinators validated by correspondence; 'inside' is the "
+            "implemented bounding-box notion.",
+    "technique": "Lean 4 proof (grammar round trip, containment-forest cases) + function-level and end-to-end correspondence + legend/tag oracle",
+    "design_ref": "5 (C16)",
+}
+
 NOT_YET = {
 }
 
